@@ -20,15 +20,20 @@ and an `end` line (final length, capacity-conservation probe).
   call had to wait for its element's expiry; plus the white-box facts (capacity, final length).
   A search that exhausts its budget is never reported.
 
-No false alarms under load.  Every observation that rests on a timing assumption is worded
+No false alarms under load.  Every observation that could be an artefact of load is worded
 "timing-sensitive: …": the order of two deadlines (the comparator reads `Delay()` of its two arguments at
 two instants; the tie tolerance is max(2 ms, 2 × the scheduling jitter `jit=` measured by the harness during
 the scenario) and the model's exact-minimum replay is skipped — inconclusive — when two distinct deadlines
-of the scenario are closer than that), the wake-up bound (2 s + 4·jit), the watchdog (hang).  The harness
-re-executes a scenario whose only complaints are timing-sensitive and keeps an accepted execution if there
-is one, so such a complaint is reported only when reproduced three times.  Observations that need no
+of the scenario are closer than that), and — ONLY when the harness measured a scheduling jitter above
+`jitGate` (200 ms) during the scenario — the second-scale bounds: wake-up bound (2 s + 4·jit), cancellation
+promptness, the capacity probe's 4 s calls, the watchdog (hang, 12 s against contexts of at most 4 s).  The harness
+re-executes a scenario whose only complaints are timing-sensitive and keeps an accepted execution if none
+of the re-executions is rejected.  A second-scale bound missed while the measured jitter is below 200 ms
+(a factor of ten below the bound) is NOT an artefact of load: it is reported at once, never re-executed —
+a lost wake-up is a race, it does not have to reproduce (acceptor audit: the re-execution used to drop
+every alarm whose race was not hit again in three attempts).  Observations that need no
 timing assumption (early release: `tres`, `rem` and the deadline are read from the same monotonic clock;
-duplicates; losses; capacity; effects of failed calls) are reported at once.
+duplicates; losses; capacity; effects of failed calls; inconsistent stamps) are reported at once.
 -/
 namespace Driver.DelayQ
 open Ekit.DelayQ Ekit.Conc Driver
@@ -43,6 +48,8 @@ structure CallRec where
   tinv : Nat
   tres : Nat
   dl : Nat
+  ctxUs : Nat := 0    -- the call's context: timeout in µs (0 = already cancelled), from the op line
+  jit : Option Nat := none   -- hang lines: the jitter measured so far
   deriving Inhabited
 
 structure St where
@@ -55,6 +62,14 @@ structure St where
 def tolTie : Nat := 2000          -- µs, clock-resolution ties (floor; widened by the measured jitter)
 def wakeBound : Nat := 2000000    -- µs, generous (widened by the measured jitter)
 def tm : String := "timing-sensitive: "
+def jitGate : Nat := 200000       -- µs: above this measured jitter the second-scale bounds count as timing-sensitive
+
+/-- prefix of a complaint about a second-scale bound: an artefact of load is conceivable only if the
+    harness measured a large scheduling jitter (or did not report it) -/
+def tmj (jit : Option Nat) : String :=
+  match jit with
+  | some j => if j > jitGate then tm else ""
+  | none => tm
 
 /-- tie tolerance for a scenario whose measured scheduling jitter was `jit` µs -/
 def tieTol (jit : Nat) : Nat := max tolTie (2 * jit)
@@ -84,7 +99,45 @@ def checkExactlyOnce (cs : Array CallRec) : Option String :=
       | some e =>
         if e.res == "ctx" then some s!"Enqueue of {d.id} failed with a context error but the element was delivered (ctx error with effect)"
         else if d.sres < e.sinv then some s!"element {d.id} dequeued before its Enqueue was invoked"
+        else if e.res != "hang" && e.dl != d.dl then some s!"Dequeue returned element {d.id} with deadline {d.dl}, it was enqueued with deadline {e.dl}"
         else none
+
+/-- The stamps are oracles read from the trace (taken by the harness, not by the queue): every call's
+    invocation stamps precede its response stamps, sequence numbers are distinct, and the clock readings
+    agree with the sequence numbers (a call that responded before another was invoked has `tres ≤ tinv`:
+    one monotonic clock, `tres` read before `sres`, `sinv` before `tinv`). -/
+def checkStamps (cs : Array CallRec) : Option String :=
+  let l := cs.toList.filter (·.res != "hang")
+  let seqs := l.flatMap fun c => [c.sinv, c.sres]
+  if seqs.eraseDups.length != seqs.length then some "harness: sequence numbers are not distinct"
+  else firstSome l fun a =>
+    if !(a.sinv < a.sres && a.tinv ≤ a.tres) then some s!"harness: call of thread {a.thr} has response stamps before its invocation stamps"
+    else firstSome l fun b =>
+      if a.sres < b.sinv && a.tres > b.tinv then
+        some s!"harness: clock readings contradict the sequence numbers (sres {a.sres} < sinv {b.sinv} but tres {a.tres} > tinv {b.tinv})"
+      else none
+
+/-- capacity bound re-derived from the raw history (independent of the `len` hook): at the response of a
+    successful Enqueue every element whose Enqueue had responded and whose Dequeue was not yet invoked is
+    in the queue -/
+def checkCapHist (cap : Nat) (cs : Array CallRec) : Option String :=
+  if cap == 0 then none else
+  firstSome (okEnqs cs) fun c =>
+    let resident := (okEnqs cs).filter fun e =>
+      e.sres ≤ c.sres && (match dequeuerOf cs e.id with
+        | none => true
+        | some d => c.sres < d.sinv)
+    if resident.length > cap then
+      some s!"when Enqueue of {c.id} responded the queue held at least {resident.length} elements, capacity {cap}"
+    else none
+
+/-- cancellation is prompt: a call does not stay in the queue for longer than the bound after its context
+    ended (`ctxUs` after the context was made, which was before `tinv`) -/
+def checkPrompt (pfx : String) (bound : Nat) (cs : Array CallRec) : Option String :=
+  firstSome cs.toList fun c =>
+    if c.res != "hang" && c.tres > c.tinv + c.ctxUs + bound then
+      some s!"{pfx}call of thread {c.thr} returned {c.res} {c.tres - (c.tinv + c.ctxUs)} us after its context ended (cancellation not prompt)"
+    else none
 
 def checkEarliest (tol : Nat) (cs : Array CallRec) : Option String :=
   firstSome (okDeqs cs) fun c =>
@@ -93,7 +146,7 @@ def checkEarliest (tol : Nat) (cs : Array CallRec) : Option String :=
         some s!"{tm}Dequeue returned {c.id} (deadline {c.dl}) although {e.id} (deadline {e.dl}) was in the queue for the whole call"
       else none
 
-def checkWake (wakeBound : Nat) (cap : Nat) (cs : Array CallRec) : Option String :=
+def checkWake (tm : String) (wakeBound : Nat) (cap : Nat) (cs : Array CallRec) : Option String :=
   firstSome cs.toList fun c =>
     if !c.isEnq && c.res == "ok" then
       match enqueuerOf cs c.id with
@@ -127,7 +180,7 @@ def checkWake (wakeBound : Nat) (cap : Nat) (cs : Array CallRec) : Option String
         else none
     else none
 
-def checkEnd (cap : Nat) (cs : Array CallRec) (obs : String) : Option String :=
+def checkEnd (tm : String) (cap : Nat) (cs : Array CallRec) (obs : String) : Option String :=
   let nEnq := (okEnqs cs).length
   let nDeq := (okDeqs cs).length
   -- `finallen=na`: the white-box hook was replaced by its black-box stub; the accounting then rests on
@@ -146,8 +199,9 @@ def checkEnd (cap : Nat) (cs : Array CallRec) (obs : String) : Option String :=
       | some free, some fill, some extra, some drained =>
         if free + fl != cap then some s!"probe: free={free} but cap-len={cap - fl}"
         else if drained.eraseDups.length != drained.length then some "probe: an element was delivered twice"
+        else if fill == free && extra != "ctx" then some s!"a full queue accepted one more element ({extra})"
+        else if fill > free then some s!"after the calls (and cancellations) of the scenario the queue accepted {fill} more elements, capacity - length is {free}"
         else if fill != free then some s!"{tm}after the calls (and cancellations) of the scenario the queue accepted {fill} more elements, capacity - length is {free}"
-        else if extra != "ctx" then some s!"a full queue accepted one more element ({extra})"
         else if !((List.range fill).all fun i => drained.contains ((900000 + i : Nat) : Int)) then
           some s!"{tm}the queue did not deliver the elements it accepted: drained {renderInts drained}"
         else none
@@ -228,26 +282,36 @@ def modelExplains (P : Params) (tol : Nat) (cs : Array CallRec) : Option String 
 
 /-! ### the line acceptor -/
 
+/-- `<us>` or `c<h>:<us>` -/
+def parseCtx (t : String) : Option Nat :=
+  match t.splitOn ":" with
+  | [u] => u.toNat?
+  | [_, u] => u.toNat?
+  | _ => none
+
 def parseCall (ws : List String) (obs : String) : Option CallRec :=
   let tok := resultTok obs
+  let jit := fieldNat obs "jit"
   let thr? : Option Nat := match ws with
     | t :: _ => if t.startsWith "t" then (t.drop 1).toString.toNat? else none
     | [] => none
   match thr?, ws with
-  | some thr, [_, _, "enq", id, _, _] => do
+  | some thr, [_, _, "enq", id, _, ctx] => do
     let id ← id.toNat?
-    if tok == "hang" then return { thr, isEnq := true, id, res := "hang", sinv := 0, sres := 0, tinv := 0, tres := 0, dl := 0 }
+    let ctxUs ← parseCtx ctx
+    if tok == "hang" then return { thr, isEnq := true, id, res := "hang", sinv := 0, sres := 0, tinv := 0, tres := 0, dl := 0, jit }
     if tok != "ok" && tok != "ctx" then none
-    return { thr, isEnq := true, id, res := tok, sinv := ← fieldNat obs "sinv", sres := ← fieldNat obs "sres",
+    return { thr, isEnq := true, id, res := tok, ctxUs, sinv := ← fieldNat obs "sinv", sres := ← fieldNat obs "sres",
              tinv := ← fieldNat obs "tinv", tres := ← fieldNat obs "tres", dl := ← fieldNat obs "dl" }
-  | some thr, [_, _, "deq", _] => do
-    if tok == "hang" then return { thr, isEnq := false, id := 0, res := "hang", sinv := 0, sres := 0, tinv := 0, tres := 0, dl := 0 }
+  | some thr, [_, _, "deq", ctx] => do
+    let ctxUs ← parseCtx ctx
+    if tok == "hang" then return { thr, isEnq := false, id := 0, res := "hang", sinv := 0, sres := 0, tinv := 0, tres := 0, dl := 0, jit }
     if tok == "ctx" then
-      return { thr, isEnq := false, id := 0, res := "ctx", sinv := ← fieldNat obs "sinv", sres := ← fieldNat obs "sres",
+      return { thr, isEnq := false, id := 0, res := "ctx", ctxUs, sinv := ← fieldNat obs "sinv", sres := ← fieldNat obs "sres",
                tinv := ← fieldNat obs "tinv", tres := ← fieldNat obs "tres", dl := 0 }
     if tok.startsWith "ok:" then
       let id ← (tok.drop 3).toString.toNat?
-      return { thr, isEnq := false, id, res := "ok", sinv := ← fieldNat obs "sinv", sres := ← fieldNat obs "sres",
+      return { thr, isEnq := false, id, res := "ok", ctxUs, sinv := ← fieldNat obs "sinv", sres := ← fieldNat obs "sres",
                tinv := ← fieldNat obs "tinv", tres := ← fieldNat obs "tres", dl := ← fieldNat obs "dl" }
     none
   | _, _ => none
@@ -272,12 +336,18 @@ def checker (model : Bool) : Checker where
     | ["end"] =>
       if !st.active then (st, some "end without case")
       else if st.broken then ({ st with active := false }, none)
-      else if resultTok obs == "hang" then ({ st with active := false }, some s!"{tm}the quiescent probe did not return (lock leaked or lost wake-up)")
+      else if resultTok obs == "hang" then ({ st with active := false }, some s!"{tmj (fieldNat obs "jit")}the quiescent probe did not return (lock leaked or lost wake-up)")
       else
-        let jit := (fieldNat obs "jit").getD 0
+        let jit? := fieldNat obs "jit"
+        let jit := jit?.getD 0
         let tol := tieTol jit
-        let r := (checkExactlyOnce st.calls) <|> (checkEnd st.cap st.calls obs) <|> (checkEarliest tol st.calls)
-                  <|> (checkWake (wakeBound + 4 * jit) st.cap st.calls)
+        let pfx := tmj jit?
+        -- first everything that needs no timing assumption, then the second-scale bounds, then the tie-sensitive order
+        let r := (checkStamps st.calls) <|> (checkExactlyOnce st.calls) <|> (checkCapHist st.cap st.calls)
+                  <|> (checkEnd pfx st.cap st.calls obs)
+                  <|> (checkWake pfx (wakeBound + 4 * jit) st.cap st.calls)
+                  <|> (checkPrompt pfx (wakeBound + 4 * jit) st.calls)
+                  <|> (checkEarliest tol st.calls)
         let r := r <|> (if model then modelExplains ⟨st.disc, st.cap⟩ tol st.calls else none)
         ({ st with active := false }, r)
     | [_, _, "cancel", _, _] | [_, _, "await", _, _] | [_, _, "mark", _, _] =>
@@ -289,7 +359,7 @@ def checker (model : Bool) : Checker where
       | none => ({ st with broken := true }, some s!"call failed or unreadable: {op} => {obs}")
       | some c =>
         let st' := { st with calls := st.calls.push c }
-        if c.res == "hang" then ({ st' with broken := true }, some s!"{tm}the call did not return although its context ended (hang)")
+        if c.res == "hang" then ({ st' with broken := true }, some s!"{tmj c.jit}the call did not return although its context ended (hang)")
         else
           let len := (fieldNat obs "len").getD 0
           if st.cap > 0 && len > st.cap then (st', some s!"length {len} exceeds capacity {st.cap}")
